@@ -603,6 +603,9 @@ def init_dataclass(
                     key = transformer.to_str(key)
                 _data[key] = val
             data = _data
+        elif not all(isinstance(key, str) for key in data):
+            # (as calling with **data would refuse them)
+            raise TypeError("keywords must be strings")
     except Exception as e:
         raise exc.ParseError(type=cls, value=data, origin_exc=e) from e
 
